@@ -8,6 +8,7 @@ import (
 	"net"
 	"os"
 	"path/filepath"
+	"strconv"
 	"strings"
 	"sync"
 	"sync/atomic"
@@ -23,7 +24,7 @@ import (
 
 type C08Case struct {
 	Client  string `json:"client"`  // streamable-json streamable-sse legacy stdio
-	Fault   string `json:"fault"`   // none refuse close reset truncate stall exit0 exit3 kill9
+	Fault   string `json:"fault"`   // none refuse close reset truncate stall exit0 exit3 kill9 http404 http500 http503 (the hit call is answered with that status and a body) noendpoint (legacy: the stream never announces its endpoint)
 	CutPct  int    `json:"cutpct"`  // where inside the response the fault lands: 0..100 (% of its bytes); -1 = before any byte (transport level)
 	Pending int    `json:"pending"` // calls pending when the fault lands
 	Ctx     string `json:"ctx"`     // none cancel deadline
@@ -31,9 +32,9 @@ type C08Case struct {
 }
 
 var c08Faults = map[string][]string{
-	"streamable-json": {"none", "refuse", "close", "reset", "truncate", "stall"},
-	"streamable-sse":  {"none", "refuse", "close", "reset", "truncate", "stall"},
-	"legacy":          {"none", "refuse", "close", "reset", "truncate", "stall"},
+	"streamable-json": {"none", "refuse", "close", "reset", "truncate", "stall", "http404", "http500", "http503"},
+	"streamable-sse":  {"none", "refuse", "close", "reset", "truncate", "stall", "http404", "http500", "http503"},
+	"legacy":          {"none", "refuse", "close", "reset", "truncate", "stall", "http404", "http500", "noendpoint"},
 	"stdio":           {"none", "close", "stall", "exit0", "exit3", "kill9"},
 }
 
@@ -65,6 +66,9 @@ func c08Enumerated() []C08Case {
 						continue
 					}
 					if f == "refuse" && cut != -1 {
+						continue
+					}
+					if (strings.HasPrefix(f, "http") || f == "noendpoint") && cut != 100 {
 						continue
 					}
 					for _, p := range []int{1, 3} {
@@ -144,6 +148,11 @@ func execC08(c C08Case) *Failure {
 			if c.Fault == "none" {
 				return FakeAction{}
 			}
+			if strings.HasPrefix(c.Fault, "http") {
+				// every pending call is answered with the error status and a body the client has no use for
+				st, _ := strconv.Atoi(strings.TrimPrefix(c.Fault, "http"))
+				return FakeAction{Kind: "http", Status: st}
+			}
 			if hit.Add(1) == 1 && c.CutPct >= 0 && c.Fault != "refuse" {
 				raw, ct := "{{valid}}", "application/json"
 				total := validLen
@@ -193,6 +202,52 @@ func execC08(c C08Case) *Failure {
 			cl.Close()
 		}
 	}()
+	if c.Fault == "noendpoint" {
+		// the handshake itself is the pending call: it must end with its context, and Close must release the stream
+		fake.NoEndpoint = true
+		limit := Bound() * 2
+		ictx, icancel := context.WithCancel(context.Background())
+		switch c.Ctx {
+		case "deadline":
+			ictx, icancel = context.WithTimeout(context.Background(), limit)
+		case "cancel":
+			time.AfterFunc(limit, icancel)
+		}
+		idone := make(chan error, 1)
+		t0 := time.Now()
+		go func() { _, err := cl.Initialize(ictx, &mcp.InitializeRequest{}); idone <- err }()
+		if c.Ctx != "none" {
+			select {
+			case err := <-idone:
+				if err == nil {
+					icancel()
+					return Failf("C08/partial-result/"+c.Client, "%s: Initialize succeeded although the server never announced an endpoint", where)
+				}
+			case <-time.After(limit + Patience()):
+				icancel()
+				return TimingFailf("C08/call-does-not-end/"+c.Client+"/"+c.Fault, "%s: Initialize is still blocked %v after its context ended (started %v ago)", where, Patience(), time.Since(t0).Round(time.Millisecond))
+			}
+		} else {
+			time.Sleep(50 * time.Millisecond)
+		}
+		icancel()
+		cdone := make(chan error, 1)
+		go func() { cdone <- cl.Close() }()
+		closed = true
+		select {
+		case <-cdone:
+		case <-time.After(8 * time.Second):
+			return TimingFailf("C08/close-hangs/"+c.Client, "%s: Close did not return within 8 s", where)
+		}
+		if c.Ctx == "none" {
+			select {
+			case <-idone:
+			case <-time.After(Patience()):
+				return TimingFailf("C08/call-survives-close/"+c.Client, "%s: Initialize is still blocked after Close", where)
+			}
+		}
+		return c08Released(c, where, cl, br, 0, goBefore, fdBefore)
+	}
 	ictx, icancel := context.WithTimeout(context.Background(), 5*time.Second)
 	_, err := cl.Initialize(ictx, &mcp.InitializeRequest{})
 	icancel()
@@ -244,9 +299,10 @@ func execC08(c C08Case) *Failure {
 	// when must everything have ended? connection faults end calls at once; stalls / silent peers end with the caller's context
 	done := make(chan struct{})
 	go func() { wg.Wait(); close(done) }()
+	httpFault := strings.HasPrefix(c.Fault, "http")
 	connectionEnds := c.Fault == "close" || c.Fault == "reset" || c.Fault == "truncate" || c.Fault == "exit0" || c.Fault == "exit3" || c.Fault == "kill9" || c.Fault == "refuse"
 	wait := limit + Patience()
-	if c.Ctx == "none" && !connectionEnds && c.Fault != "none" {
+	if c.Ctx == "none" && !connectionEnds && c.Fault != "none" && !httpFault {
 		wait = 100 * time.Millisecond // nothing obliges these calls to end; they are released by Close below
 	}
 	ended := false
@@ -255,7 +311,7 @@ func execC08(c C08Case) *Failure {
 		ended = true
 	case <-time.After(wait):
 	}
-	expectEnd := c.Fault == "none" || c.Ctx != "none" || (connectionEnds && (c.Client == "stdio" || c.Client == "legacy" || c.Pending == 1))
+	expectEnd := c.Fault == "none" || httpFault || c.Ctx != "none" || (connectionEnds && (c.Client == "stdio" || c.Client == "legacy" || c.Pending == 1))
 	if !ended && expectEnd {
 		var stuck []int
 		for i := range results {
@@ -285,13 +341,25 @@ func execC08(c C08Case) *Failure {
 	}
 	// never a wrong or partial result
 	for i, r := range results {
+		if httpFault && r.err == nil {
+			return Failf("C08/partial-result/"+c.Client, "%s: pending call %d answered with HTTP %s returned %q without error", where, i, strings.TrimPrefix(c.Fault, "http"), r.text)
+		}
 		if r.err == nil && r.text != c07ValidText {
 			return Failf("C08/partial-result/"+c.Client, "%s: pending call %d returned %q without error", where, i, r.text)
 		}
-		if r.err != nil && c.Ctx == "cancel" && !connectionEnds && !errors.Is(r.err, context.Canceled) && !strings.Contains(r.err.Error(), "context canceled") && !strings.Contains(r.err.Error(), "closed") && c.Fault != "none" {
+		if r.err != nil && c.Ctx == "cancel" && !connectionEnds && !httpFault && !errors.Is(r.err, context.Canceled) && !strings.Contains(r.err.Error(), "context canceled") && !strings.Contains(r.err.Error(), "closed") && c.Fault != "none" {
 			return Failf("C08/cancel-error/"+c.Client, "%s: a cancelled call returned %v", where, r.err)
 		}
 	}
+	if f := c08Released(c, where, cl, br, childPID, goBefore, fdBefore); f != nil {
+		return f
+	}
+	childPID = 0
+	return nil
+}
+
+// c08Released checks what must be gone after Close: pending tables, response bodies, the child, goroutines, descriptors.
+func c08Released(c C08Case, where string, cl mcp.Connector, br *Bridge, childPID int, goBefore map[string]int, fdBefore int) *Failure {
 	// released: pending tables, response bodies, goroutines, descriptors, the child
 	if n := mcp.VerifPendingClientRequests(cl); n > 0 {
 		return Failf("C08/pending-entries-left/"+c.Client, "%s: %d requests are still registered as pending after Close", where, n)
@@ -317,7 +385,6 @@ func execC08(c C08Case) *Failure {
 		if syscall.Kill(childPID, 0) == nil {
 			return TimingFailf("C08/child-left-running", "%s: the child process %d is still alive after Close", where, childPID)
 		}
-		childPID = 0
 	}
 	if d := WaitNoLeak(goBefore, Patience()); len(d) > 0 {
 		return TimingFailf("C08/goroutine-leak/"+c.Client+"/"+strings.SplitN(d[0], " (", 2)[0], "%s: library goroutines left after Close: %v", where, d)
